@@ -446,6 +446,7 @@ static Json result_json(RunResult const& rr)
     j.set("steps", (long long)rr.ctx.steps); j.set("reads", (long long)rr.ctx.reads); j.set("seeks", (long long)rr.ctx.seeks); j.set("writes", (long long)rr.ctx.writes);
     j.set("short_reads", (long long)rr.ctx.short_reads); j.set("eio", (long long)rr.ctx.eio_fired); j.set("seekfail", (long long)rr.ctx.seekfail_fired);
     j.set("eof_hits", (long long)rr.ctx.eof_hits); j.set("file_faults", (long long)rr.file_faults_fired);
+    if (rr.ctx.preambles) j.set("pre", (long long)rr.ctx.preambles);
     j.set("fsize", (long long)rr.file_size); j.set("felt", rr.high_water > rr.file_size || rr.ctx.eof_hits > 0 ? 1 : 0);
     if (!rr.o.extra.empty()) j.set("extra", rr.o.extra);
     if (!rr.o.what.empty()) j.set("what", rr.o.what.substr(0, 120));
